@@ -150,6 +150,14 @@ class Module:
 
     def _fold_body(self, body: List[ast.stmt]) -> None:
         assert self._consts is not None
+        _FOLD_FUNCS.append({k: v for k, v in self.defs.items() if "." not in k})
+        try:
+            self._fold_body_(body)
+        finally:
+            _FOLD_FUNCS.pop()
+
+    def _fold_body_(self, body: List[ast.stmt]) -> None:
+        assert self._consts is not None
         for st in body:
             tgt = None
             val = None
@@ -214,6 +222,15 @@ class SymLambda(SymName):
         return f"SymLambda({str.__repr__(self)})"
 
 
+class SymCall(SymName):
+    """a constructor call with constant arguments kept symbolically inside a folded table (struct.Struct("<d"))"""
+    func: str = ""
+    args: tuple = ()
+
+    def __repr__(self) -> str:
+        return f"SymCall({str.__repr__(self)})"
+
+
 class _SymEnv(dict):
     """environment in which unknown plain names / dotted names evaluate to SymName"""
 
@@ -227,6 +244,10 @@ class _SymEnv(dict):
         if dict.__contains__(self, k):
             return dict.__getitem__(self, k)
         return SymName(k)
+
+
+# module functions available to fold() while a module's constants are being folded (a stack: nested modules / calls)
+_FOLD_FUNCS: List[Dict[str, Any]] = []
 
 
 class _Ret(Exception):
@@ -358,6 +379,19 @@ def fold(node: ast.AST, env: Dict[str, Any]) -> Any:
             else:
                 out2[fold(k, env)] = fold(v, _SymEnv(env))
         return out2
+    if isinstance(node, ast.Call) and isinstance(node.func, ast.Name) and not node.keywords and _FOLD_FUNCS and node.func.id in _FOLD_FUNCS[-1] \
+            and node.func.id not in env:
+        # a call of a small module-level function on constants (a table function such as `return {...}[arg]`)
+        fns = [x for x in _FOLD_FUNCS[-1][node.func.id] if isinstance(x, ast.FunctionDef)]
+        if len(fns) == 1 and len(_FOLD_FUNCS) < 4:
+            args = [fold(a, env) for a in node.args]
+            return eval_initialiser(fns[0], args, dict(env), budget=2000)
+    if isinstance(node, ast.Call) and isinstance(node.func, ast.Attribute) and isinstance(node.func.value, ast.Name) \
+            and node.func.value.id == "struct" and node.func.attr == "Struct" and len(node.args) == 1 and not node.keywords:
+        sc = SymCall(f"struct.Struct({fold(node.args[0], env)!r})")
+        sc.func = "struct.Struct"
+        sc.args = (fold(node.args[0], env),)
+        return sc
     if isinstance(node, ast.Lambda) and isinstance(env, _SymEnv):
         sl = SymLambda(ast.unparse(node))
         sl.node = node
